@@ -209,7 +209,11 @@ func init() {
 		return n
 	}
 	ext[symPkg+".ExitThread"] = func(fr *frame, args []value) value {
-		panic(exitPanic{int(asInt64(args[0]))})
+		code := 0
+		if _, ok := args[0].(*SV); !ok {
+			code = int(asInt64(args[0]))
+		}
+		panic(exitPanic{code})
 	}
 	// memory intrinsics for the kernel model
 	ext[symPkg+".PtrOf"] = func(fr *frame, args []value) value {
@@ -289,7 +293,7 @@ func init() {
 				}
 				r = append(r, b)
 			default:
-				panic(fmt.Sprintf("CString: non-byte element %T", e))
+				panic(fmt.Sprintf("CString: non-byte element %T at offset %d (prefix %q) called from %s", e, k, toString(normStr(r)), fr.i.pos(fr.callpos)))
 			}
 		}
 		unsupported("CString: unterminated")
